@@ -87,7 +87,7 @@ def signature(case, ck, log, fault):
 
 
 def plan(tier, seed):
-    return F.std_plan(tier, seed, 1200, 30000)
+    return F.std_plan(tier, seed, 4800, 50000)
 
 
 def run_shard(desc):
